@@ -255,7 +255,7 @@ def sval(v):
 
 
 # -- real code ----------------------------------------------------------------
-def drive(chk, cases, tag, nproc=NPROC, timeout=3000):
+def drive(chk, cases, tag, nproc=NPROC, timeout=3000, scale=1):
     """Run the driver over `cases` in nproc processes (each forks one child
     per case).  Returns the traces in the order of `cases`."""
     sc = chk.scratch
@@ -269,7 +269,9 @@ def drive(chk, cases, tag, nproc=NPROC, timeout=3000):
             for c in todo:
                 fp.write(json.dumps(c) + '\n')
         p = chk.run_py('checks/c12_driver.py', ['run', fi, fo], check=False,
-                       env_extra={'OMP_NUM_THREADS': '1'}, timeout=timeout)
+                       env_extra={'OMP_NUM_THREADS': '1',
+                                  'C12_TIMEOUT_SCALE': str(scale)},
+                       timeout=timeout * scale)
         got = []
         if os.path.exists(fo):
             with open(fo) as fp:
@@ -291,6 +293,16 @@ def drive(chk, cases, tag, nproc=NPROC, timeout=3000):
     by = {}
     for part in parts:
         for t in part:
+            by[t['id']] = t
+    # a set-up that ran into the alarm on a loaded machine (SISPH compiles
+    # an SPHEvaluator module inside setup_properties; 16 children wait for
+    # one cold compile): once more, few at a time, four times the limit.
+    # What still does not return is recorded as it is (a SetUp failure).
+    late = [c for c in cases if by[c['id']]['setup']['stage'] == 'timeout'
+            and c.get('mode', 'gen') == 'gen']
+    if late and scale == 1:
+        for t in drive(chk, late, tag + 'late', nproc=4, timeout=timeout,
+                       scale=4):
             by[t['id']] = t
     return [by[c['id']] for c in cases]
 
@@ -737,11 +749,18 @@ def check(chk):
         'defaults (they do not change the set of equations)',
         'names read by py_initialize / reduce / py_stageN through dst.array '
         'are not visible in a signature and are covered by the run leg only',
-        'the run leg is exploration: a seed-rotated subset of the single '
-        'layout, 3 steps of '
-        'dt=1e-4 from rest with e, p, cs, V, rho0, h0 initialised as a '
-        'create_particles would; PCISPH on a periodic block; ISPHScheme '
-        'needs scipy (not installed): recorded as unavailable',
+        'the run leg: the richest established configuration of every scheme '
+        '(most distinct equations / steppers: nu > 0, solids, ghosts, '
+        'no-slip and inviscid variants) in the single layout on every run, '
+        'plus seed-rotated ones; 3 steps of dt=1e-4 from rest with e, p, '
+        'cs, rho0, h0 initialised as a create_particles would; V only for '
+        'TVFScheme / GTVFScheme (their examples set fluid.V and solid.V); '
+        'PCISPH on a periodic block; ISPHScheme needs scipy (not '
+        'installed): recorded as unavailable',
+        'Strides: the values per particle a method addresses are read off '
+        'its source (name[K*d_idx + j], K*s_idx, loop variables of '
+        'range(N), locals assigned such expressions); index expressions '
+        'that are not recognised demand nothing',
         'code generation = AccelerationEval + SPHCompiler rendering the '
         'Cython source (SPHCompiler._get_code and the helpers of later '
         'stages); Cython / C compilation only in the run leg',
